@@ -844,6 +844,19 @@ class Server:
         logger.debug(line)
         await stream.write((line + END_OF_LINE).encode(encoding=self.encoding))
 
+    def _listing_line(self, s):
+        """
+        A line of a listing in server encoding; `None` (and a warning) for a
+        name the encoding can not express, e.g. a file made by another tool
+        under a name which is no text at all: one such entry must not take
+        the listing - and with it the session - down.
+        """
+        try:
+            return (s + END_OF_LINE).encode(encoding=self.encoding)
+        except UnicodeEncodeError:
+            logger.warning("listing line %a can not be sent in %r, entry skipped", s, self.encoding)
+            return None
+
     async def write_response(self, stream, code, lines="", list=False):
         """
         :py:func:`asyncio.coroutine`
@@ -1336,8 +1349,9 @@ class Server:
             async with stream:
                 async for path in connection.path_io.list(real_path):
                     s = await self.build_mlsx_string(connection, path)
-                    b = (s + END_OF_LINE).encode(encoding=self.encoding)
-                    await stream.write(b)
+                    b = self._listing_line(s)
+                    if b is not None:
+                        await stream.write(b)
             connection.response("200", "mlsd transfer done")
             return True
 
@@ -1398,8 +1412,9 @@ class Server:
                         logger.warning("path %r does not exists", path)
                         continue
                     s = await self.build_list_string(connection, path)
-                    b = (s + END_OF_LINE).encode(encoding=self.encoding)
-                    await stream.write(b)
+                    b = self._listing_line(s)
+                    if b is not None:
+                        await stream.write(b)
             connection.response("226", "list transfer done")
             return True
 
